@@ -74,14 +74,13 @@ def header_digest(repo=None):
   for dp, dn, fn in os.walk(SHIMS):
     for f in fn:
       files.append(os.path.join(dp, f))
-  for dp, dn, fn in os.walk(NATIVE):
-    for f in fn:
-      if f.endswith(('.h', '.inc')):
-        files.append(os.path.join(dp, f))
+  for f in os.listdir(NATIVE):   # top level only: per-check native code lives in native/<ID>/ and is hashed by build_exe
+    if f.endswith(('.h', '.inc')):
+      files.append(os.path.join(NATIVE, f))
   files.sort()
   h = hashlib.sha256()
   for f in files:
-    h.update(os.path.relpath(f, '/').encode())
+    h.update(os.path.relpath(f, repo if f.startswith(repo + '/') else VERIF).encode())
     h.update(_read(f))
   return h.hexdigest()
 
